@@ -11,6 +11,12 @@ from .._sentinels import undefined
 from .generic_value import GenericValue
 
 
+def _is_recorded(value):
+    # sub-snapshots which were only accessed (`s[key]`), or whose comparison
+    # was rejected with an UsageError, have no value which could be written
+    return not isinstance(value, UndecidedValue) and value._new_value is not undefined
+
+
 class DictValue(GenericValue):
     _current_op = "snapshot[key]"
 
@@ -54,7 +60,7 @@ class DictValue(GenericValue):
                 [
                     f"{self._file._value_to_code(k)}: {v._new_code()}"
                     for k, v in self._new_value.items()
-                    if not isinstance(v, UndecidedValue)
+                    if _is_recorded(v)
                 ]
             )
             + "}"
@@ -86,9 +92,7 @@ class DictValue(GenericValue):
 
         to_insert = []
         for key, new_value_element in self._new_value.items():
-            if key not in self._old_value and not isinstance(
-                new_value_element, UndecidedValue
-            ):
+            if key not in self._old_value and _is_recorded(new_value_element):
                 # add new values
                 to_insert.append((key, new_value_element._new_code()))
 
